@@ -72,6 +72,7 @@ Inductive expr :=
 | EFun (f : string)                          (* &function *)
 | EField (e : expr) (f : string)             (* e->f (f may be a dotted path into nested structs) *)
 | ELoad (t : ity) (e : expr)                 (* *e, e pointing into bytes; t = type of the element *)
+| EIndex (a : expr) (i : expr)               (* a[i], a an array of pointers or of structs (an OVec object) *)
 | EUn (o : unop) (e : expr)
 | EBin (o : binop) (a b : expr)              (* && and || are lazy *)
 | EArith (t : ity) (e : expr)                (* result of an arithmetic operation of type t: wraps when
@@ -85,7 +86,8 @@ Inductive lval :=
 | LVar (x : string)
 | LGlob (x : string)
 | LField (e : expr) (f : string)
-| LStore (t : ity) (e : expr).               (* *e = ... *)
+| LStore (t : ity) (e : expr)                (* *e = ... *)
+| LIndex (a : expr) (i : expr).              (* a[i] = ..., a an array of pointers *)
 
 Inductive stmt :=
 | SSkip
@@ -274,6 +276,74 @@ Fixpoint remove_nth {A} (n : nat) (l : list A) : list A :=
   | x :: l', S n' => x :: remove_nth n' l'
   end.
 
+(* fnmatch(pattern, string, 0) for patterns of literal characters and '*' *)
+Fixpoint glob_z (p s : list Z) : bool :=
+  match p with
+  | [] => match s with [] => true | _ => false end
+  | c :: p' =>
+      if c =? 42 then
+        (fix star (s : list Z) : bool :=
+           glob_z p' s || match s with [] => false | _ :: s' => star s' end) s
+      else match s with
+           | c' :: s' => (c =? c') && glob_z p' s'
+           | [] => false
+           end
+  end.
+
+(* the conversions of printf that cgreen's translated functions use *)
+Definition hex_digit (d : Z) : Z := if d <? 10 then 48 + d else 87 + d.
+Fixpoint hex_digits (fuel : nat) (n : Z) (acc : list Z) : list Z :=
+  match fuel with
+  | O => acc
+  | S f => if n <? 16 then hex_digit n :: acc else hex_digits f (n / 16) (hex_digit (n mod 16) :: acc)
+  end.
+Definition hex_of (n : Z) : list Z := hex_digits 20 n [].
+Fixpoint dec_digits (fuel : nat) (n : Z) (acc : list Z) : list Z :=
+  match fuel with
+  | O => acc
+  | S f => if n <? 10 then (48 + n) :: acc else dec_digits f (n / 10) ((48 + n mod 10) :: acc)
+  end.
+Definition dec_of (n : Z) : list Z := if n <? 0 then 45 :: dec_digits 25 (- n) [] else dec_digits 25 n [].
+Definition pad_left (width : nat) (c : Z) (l : list Z) : list Z := repeat c (width - List.length l) ++ l.
+
+Fixpoint format_c (fuel : nat) (w : world) (fmt : list Z) (args : list val) : cres (list Z) :=
+  match fuel with
+  | O => Stuck "format too long"
+  | S f =>
+      match fmt with
+      | [] => Fine []
+      | 37 :: 37 :: r => do t <- format_c f w r args; Fine (37 :: t)                       (* %% *)
+      | 37 :: 99 :: r =>                                                                    (* %c *)
+          match args with
+          | VInt c :: a' => do t <- format_c f w r a'; Fine (wrap U8 c :: t)
+          | _ => Stuck "printf: %c without an integer argument"
+          end
+      | 37 :: 48 :: 50 :: 120 :: r =>                                                       (* %02x *)
+          match args with
+          | VInt n :: a' => do t <- format_c f w r a'; Fine (pad_left 2 48 (hex_of (wrap U32 n)) ++ t)
+          | _ => Stuck "printf: %02x without an integer argument"
+          end
+      | 37 :: 100 :: r =>                                                                   (* %d *)
+          match args with
+          | VInt n :: a' => do t <- format_c f w r a'; Fine (dec_of (wrap I32 n) ++ t)
+          | _ => Stuck "printf: %d without an integer argument"
+          end
+      | 37 :: 115 :: r =>                                                                   (* %s *)
+          match args with
+          | v :: a' => do sv <- cstring w v; do t <- format_c f w r a'; Fine (sv ++ t)
+          | _ => Stuck "printf: %s without an argument"
+          end
+      | 37 :: _ => Stuck "printf: a conversion outside the modelled set"
+      | c :: r => do t <- format_c f w r args; Fine (c :: t)
+      end
+  end.
+
+Definition ranges_overlap (a b : val) (n : Z) : bool :=
+  match a, b with
+  | VPtr b1 o1, VPtr b2 o2 => Nat.eqb b1 b2 && (o1 <? o2 + n) && (o2 <? o1 + n)
+  | _, _ => false
+  end.
+
 (* ------------------------------------------------------------------------------------------ *)
 (* functions of libc and of cgreen's vector that have a meaning here; everything else is an
    external call: it is recorded in the wtrace and answers from its stream (0 when empty) *)
@@ -334,11 +404,57 @@ Definition builtin (f : string) (args : list val) (w : world) : cres (val * worl
   | "malloc", [VInt n] =>
       if (0 <=? n) then Fine (alloc (OBytes (repeat 255 (Z.to_nat n))) w)   (* contents indeterminate: not 0 *)
       else Stuck "malloc of a negative size"
-  | "free", [_] => Fine (VInt 0, w)
+  | "free", [p] =>
+      match p with
+      | VInt 0 => Fine (VInt 0, w)
+      | VPtr b 0 =>
+          match nth_error (heap w) b with
+          | Some (OBytes _) => Fine (VInt 0, set_heap (list_set b OFreed (heap w)) w)
+          | Some OFreed => Stuck "double free"
+          | _ => Fine (VInt 0, w)
+          end
+      | VPtr _ _ => Stuck "free of a pointer into the middle of a block"
+      | _ => Fine (VInt 0, w)
+      end
   | "strcpy", [d; s] =>
       do l <- cstring w s; do w' <- store_bytes w d (l ++ [0]); Fine (d, w')
   | "memcpy", [d; s; VInt n] =>
-      do l <- load_bytes w s n; do w' <- store_bytes w d l; Fine (d, w')
+      if ranges_overlap d s n then Stuck "memcpy of overlapping ranges"
+      else do l <- load_bytes w s n; do w' <- store_bytes w d l; Fine (d, w')
+  | "memset", [VPtr b o; VInt c; VInt n] =>      (* on anything but a pointer to bytes (a va_list): an opaque external call *)
+      if 0 <=? n then do w' <- store_bytes w (VPtr b o) (repeat (wrap U8 c) (Z.to_nat n)); Fine (VPtr b o, w')
+      else Stuck "memset of a negative size"
+  | "strdup", [s] | "string_dup", [s] =>
+      do l <- cstring w s; Fine (alloc (OBytes (l ++ [0])) w)
+  | "strcat", [d; s] =>
+      do dl <- cstring w d; do l <- cstring w s;
+      match d with
+      | VPtr b off => do w' <- store_bytes w (VPtr b (off + Z.of_nat (List.length dl))) (l ++ [0]); Fine (d, w')
+      | _ => Stuck "strcat onto a literal"
+      end
+  | "realloc", [p; VInt n] =>
+      if 0 <=? n then
+        match p with
+        | VInt 0 => Fine (alloc (OBytes (repeat 255 (Z.to_nat n))) w)
+        | VPtr b 0 =>
+            match nth_error (heap w) b with
+            | Some (OBytes l) =>
+                let l' := firstn (Z.to_nat n) l ++ repeat 255 (Z.to_nat n - List.length l) in
+                let '(v, w1) := alloc (OBytes l') w in
+                Fine (v, set_heap (list_set b OFreed (heap w1)) w1)
+            | _ => Stuck "realloc of something that is not a byte block"
+            end
+        | _ => Stuck "realloc of a pointer into the middle of a block"
+        end
+      else Stuck "realloc to a negative size"
+  | "snprintf", d :: VInt n :: fmt :: fargs =>
+      do f <- cstring w fmt; do out <- format_c 4000 w f fargs;
+      if 1 <=? n then
+        do w' <- store_bytes w d (firstn (Z.to_nat (n - 1)) out ++ [0]);
+        Fine (VInt (Z.of_nat (List.length out)), w')
+      else Fine (VInt (Z.of_nat (List.length out)), w)
+  | "fnmatch", [p; s; VInt 0] =>
+      do pl <- cstring w p; do sl <- cstring w s; Fine (VInt (if glob_z pl sl then 0 else 1), w)
   | "memmove", [d; s; VInt n] =>
       do l <- load_bytes w s n; do w' <- store_bytes w d l; Fine (d, w')
   | _, _ => external f args w
@@ -403,6 +519,14 @@ Fixpoint eval (e : expr) (l : locals) (w : world) {struct e} : cres (val * world
   | ELoad t e1 =>
       do vw <- eval e1 l w; do b <- load_byte (snd vw) (fst vw);
       Fine (VInt (wrap t b), snd vw)
+  | EIndex a i =>
+      do vw <- eval a l w; do iw <- eval i l (snd vw);
+      do bl <- get_vec (snd iw) (fst vw);
+      match fst iw with
+      | VInt n => if (0 <=? n) && (n <? Z.of_nat (List.length (snd bl))) then Fine (nth (Z.to_nat n) (snd bl) (VInt 0), snd iw)
+                  else Stuck "array index outside the array"
+      | _ => Stuck "array index is not an integer"
+      end
   | EUn o e1 =>
       do vw <- eval e1 l w;
       match o, fst vw with
@@ -475,6 +599,15 @@ Definition assign (lv : lval) (v : val) (l : locals) (w : world) : cres (locals 
       match v with
       | VInt z => do w' <- store_bytes (snd pw) (fst pw) [wrap U8 z]; Fine (l, w')
       | _ => Stuck "storing a pointer into bytes"
+      end
+  | LIndex a i =>
+      do vw <- eval a l w; do iw <- eval i l (snd vw);
+      do bl <- get_vec (snd iw) (fst vw);
+      match fst iw with
+      | VInt n => if (0 <=? n) && (n <? Z.of_nat (List.length (snd bl)))
+                  then Fine (l, set_heap (list_set (fst bl) (OVec (list_set (Z.to_nat n) v (snd bl))) (heap (snd iw))) (snd iw))
+                  else Stuck "array index outside the array"
+      | _ => Stuck "array index is not an integer"
       end
   end.
 End Sem.
